@@ -1,6 +1,14 @@
 META = {
-    "assumptions": ["allocation failure out of scope (--no-malloc-may-fail)"],
-    "outside": ["whole-tool runs"],
+    "assumptions": ["allocation failure out of scope (--no-malloc-may-fail)",
+                    "block / region sizes scaled (directory block 64/32 bytes, journal block 64 bytes, extent root only); "
+                    "each buffer is a heap object of exactly the advertised size so CBMC's pointer checks and the ASan replay are tight",
+                    "memsafe queries use the default SAT back end only (external-solver runs cannot label multi-property failures)"],
+    "outside": ["whole-tool runs (e2fsck, debugfs, dumpe2fs, tune2fs, resize2fs, e2image, e2undo, e2freefrag mains), exit status, stack depth, hangs in loops over the whole image",
+                "ext2fs_open2 superblock geometry validation, xattr parsers (read_xattrs_from_buffer, check_ext_attr_header), inline-data EA path, "
+                "qcow2 / undo-file headers, mmp / orphan blocks, e2fsck pass1/pass2 checkers, do_one_pass tag loop, __get_dirent_tail (needs blocksize >= 1024): no harness yet",
+                "ext2fs_extent_get below the root (depth >= 1): the walk harness does not reach a verdict within 8 GB (1-2 M SAT variables per step); "
+                "only ext2fs_extent_header_verify (all inputs) and depth-0 walks (thorough tier) are decided",
+                "formation / comparison of out-of-object pointers without access (count_tags tagp += 16 past the block end) is reported as UB-REPORT, not decided as a defect"],
 }
 
 def dir_cfg(mode, flags, n, tier="quick"):
@@ -48,7 +56,7 @@ def jcfg(name, op, funcs, loops):
                 bound="journal block of 64 bytes (heap object = buffer_head header + 64, as getblk allocates), every byte "
                       "and the journal feature words symbolic")
 HARNESSES.append(jcfg("jtags", 1, ["count_tags", "journal_tag_bytes"], ["count_tags.0:9"]))
-HARNESSES.append(jcfg("jrevoke", 2, ["scan_revoke_records"], ["scan_revoke_records.0:14"]))
+HARNESSES.append(jcfg("jrevoke", 2, ["scan_revoke_records"], ["scan_revoke_records.0:20"]))
 EOPS = {"CURRENT": 0, "ROOT": 1, "LAST_LEAF": 2, "FIRST_SIB": 3, "LAST_SIB": 4, "NEXT_SIB": 5, "PREV_SIB": 6,
         "NEXT_LEAF": 7, "PREV_LEAF": 8, "NEXT": 9, "PREV": 10, "UP": 11, "DOWN": 12, "DOWN_AND_LAST": 13, "BAD": 14}
 def ext_cfg(seq, depth=2, tier="quick", nreads=4):
@@ -73,4 +81,16 @@ HARNESSES.append(
          configs=EXT_WALKS, checks="memsafe", unwind=3, backends=["default"],
          bound="i_block root (60 bytes) + up to 4 tree blocks of 64 bytes, all symbolic; walks of up to 4 operations "
                "fixed per query (every EXT2_EXTENT_* movement occurs in some walk); root depth <= 2 (<= 1 for *_LEAF walks in quick)"))
-MANIFEST = {"text": "wip", "note": "wip"}
+HARNESSES.append(
+    dict(name="dxlimit", src="dxlimit.c", funcs=["__get_dx_countlimit", "ext2fs_get_dx_countlimit"], checks="memsafe",
+         unwind=3, unwindset=["main.0:2", "main.1:65", "main.2:2"], backends=["default"],
+         bound="64-byte directory block, every byte symbolic"))
+MANIFEST = {
+    "text": "Bounded-exhaustive parser safety: for each harnessed parser (directory block iteration incl. deleted-entry scan and inline "
+            "regions, journal descriptor-tag counting and revoke-record scan, extent header gate, htree count/limit locator) every byte of "
+            "the untrusted buffer is symbolic within the stated (scaled) size; the solver decides absence of out-of-bounds access, "
+            "signed overflow, undefined shifts, division by zero, termination within the buffer-derived loop bound, plus the hand-out "
+            "contracts callers rely on. Whole tools and the parsers listed under 'outside' are not covered.",
+    "note": "Trusted: CBMC's C semantics and memory model, the stubs listed in evidence (block reads deliver the hostile bytes, callbacks do "
+            "not modify entries), scaled block sizes. One genuine defect found (ext2fs_validate_entry bound on inline regions).",
+}
